@@ -6,17 +6,30 @@ import (
 	"qrynverif/evid"
 )
 
+var c05Config = evid.Config{
+	Level: "exploration",
+	Rule:  "generated requests (valid body of the route's protocol, then damaged: wrong-length ids, missing keys, byte flips, truncation, splices, JSON type swaps, hostile constants, random bytes; every Content-Type / Content-Encoding incl. compression that lies; hostile from/until/name/precision/ddsource) against the real writer route table on a loopback HTTP server over insert services that write to a fake accepting everything; non-trivial: the request reached a body decoder (not the router's 404/405, not net/http's own 400, not 'Content-Type not supported', not turned away by the encoding / precision / profile-parameter checks in front of the decoder)",
+	Assumptions: []string{
+		"a response must arrive within 10 s (normal latency: milliseconds); a miss counts only if a goroutine with a qryn frame is still alive 20 s later and all of this repeats on a fresh server",
+		"3 in 10 requests are first sent by a client that aborts (prefix, chunked cut, headers only, no read, slow); groups of 2-16 concurrent requests are 10 % of the quick cases and run under the race detector in TestRace",
+		"goroutines with a qryn frame must be gone 10 s after the response",
+		"bodies up to about 1.5 MiB on the wire; compressed bodies inflate to at most 8 MiB",
+	},
+}
+
 func TestProp(t *testing.T) {
-	r := evid.New(t, "C05", evid.Config{
-		Level: "exploration",
-		Rule:  "generated requests (valid body of the route's protocol, then damaged: wrong-length ids, missing keys, byte flips, truncation, splices, JSON type swaps, hostile constants, random bytes; every Content-Type / Content-Encoding incl. compression that lies; hostile from/until/name/precision/ddsource) against the real writer route table on a loopback HTTP server over insert services that write to a fake accepting everything; non-trivial: the request reached a body decoder (not the router's 404/405, not net/http's own 400, not 'Content-Type not supported', not turned away by the encoding / precision / profile-parameter checks in front of the decoder)",
-		Assumptions: []string{
-			"a response must arrive within 10 s (normal latency: milliseconds); a miss counts only if a goroutine with a qryn frame is still alive 20 s later and all of this repeats on a fresh server",
-			"requests are complete (Content-Length matches the body); slow or half-sent requests are out of scope",
-			"goroutines with a qryn frame must be gone 10 s after the response",
-			"bodies up to about 1.5 MiB on the wire; compressed bodies inflate to at most 8 MiB",
-		},
-	})
+	r := evid.New(t, "C05", c05Config)
 	addRequest(r)
+	addGroup(r, 200, 600)
+	r.Main()
+}
+
+// TestRace runs groups of concurrent requests under the race detector (the driver builds this
+// binary with -race): one sub-test per group, so a race report is attributed to the group.
+func TestRace(t *testing.T) {
+	raceT = t
+	defer func() { raceT = nil }()
+	r := evid.New(t, "C05", c05Config)
+	addGroup(r, 60, 150)
 	r.Main()
 }
